@@ -109,6 +109,24 @@ def out_of_range(ctx):
     return ts
 
 
+def tables_in_sync(ctx):
+    """The generated table file must be exactly what the generator produces from the Rust source now (a generator that can
+    no longer find its constant, or a stale file, would silently decouple the proofs from the code)."""
+    import importlib
+    import hv
+    try:
+        outs = importlib.import_module('tables.date').generate(hv.REPO)
+        for name, content in outs.items():
+            path = hv.COQ + '/theories/' + name
+            if not os.path.exists(path) or open(path).read() != content:
+                raise RuntimeError(name + ' on disk differs from what the generator produces')
+    except Exception as e:  # noqa: BLE001
+        ctx.report({'part': 'date', 'tables': 'tools/tables/date.py'}, repr(e), 'tables regenerate from the Rust source',
+                   cls='tables-out-of-sync', failing_input=False,
+                   what='table generator for date failed or its output is stale: the theorems no longer speak about the '
+                        'constants in the source')
+
+
 def run(ctx):
     import time
     t0 = time.time()
@@ -120,6 +138,7 @@ BATCH = 400000
 
 
 def _run(ctx):
+    tables_in_sync(ctx)
     import itertools
     state = {'nformat': 0, 'first': [], 'last': [], 'spec': {}}
     if ctx.replay:
